@@ -60,7 +60,7 @@ func boundSpec() nd.Spec {
 	if nd.Thorough() {
 		return numSpec
 	}
-	return nd.Spec{Kinds: nd.KFloat | nd.KInt64}
+	return nd.Spec{Kinds: nd.KFloat | nd.KInt64 | nd.KNumber}
 }
 
 // C14_Subscripts: arrays of every length 0..N with lazily shaped elements
